@@ -31,7 +31,6 @@ long vt_helper_calls;
 /* In the hook-granularity search a helper call is just counted. In the helper-granularity search (fine_mode)
    every helper call is a scheduling point: the hook runs as a coroutine and hands control back to the
    scheduler BEFORE the helper executes; when it is resumed the helper runs atomically. */
-#include <ucontext.h>
 static int fine_mode;
 static void fine_yield(void);
 void vt_yield(const char *what) { (void)what; vt_helper_calls++; if (fine_mode) fine_yield(); }
@@ -51,20 +50,23 @@ static struct vt_map *vt_get(const void *id, unsigned ks, unsigned vs, unsigned 
 void *vt_lookup(const void *id, unsigned ks, unsigned vs, unsigned cap, unsigned type, const void *key) {
     struct vt_map *m = vt_get(id, ks, vs, cap, type);
     for (int i = 0; i < NENT; i++)
-        if (m->e[i].used && memcmp(m->e[i].key, key, ks) == 0) return m->e[i].val;
+        if (m->e[i].used && memcmp(m->e[i].key, key, ks) == 0) { m->e[i].stamp = ++m->clock; return m->e[i].val; }
     return NULL;
 }
 long vt_update(const void *id, unsigned ks, unsigned vs, unsigned cap, unsigned type, const void *key, const void *val) {
     struct vt_map *m = vt_get(id, ks, vs, cap, type);
     void *p = vt_lookup(id, ks, vs, cap, type, key);
     if (p) { memcpy(p, val, vs); return 0; }
-    if (m->count >= cap) {
-        /* LRU eviction / E2BIG are not modelled: the explored space stays below capacity */
-        fprintf(stderr, "MACHINERY: map capacity reached in the model\n"); exit(2);
+    unsigned full_at = cap < NENT ? cap : NENT;
+    if (m->count >= full_at) {
+        if (type != 9 /* BPF_MAP_TYPE_LRU_HASH */) return -7; /* -E2BIG */
+        int victim = -1;
+        for (int i = 0; i < NENT; i++) if (m->e[i].used && (victim < 0 || m->e[i].stamp < m->e[victim].stamp)) victim = i;
+        m->e[victim].used = 0; m->count--;
     }
     for (int i = 0; i < NENT; i++)
-        if (!m->e[i].used) { m->e[i].used = 1; memcpy(m->e[i].key, key, ks); memcpy(m->e[i].val, val, vs); m->count++; return 0; }
-    fprintf(stderr, "MACHINERY: model table full\n"); exit(2);
+        if (!m->e[i].used) { m->e[i].used = 1; m->e[i].stamp = ++m->clock; memcpy(m->e[i].key, key, ks); memcpy(m->e[i].val, val, vs); m->count++; return 0; }
+    fprintf(stderr, "MACHINERY: model table inconsistent\n"); exit(2);
 }
 /* update with the kernel's flag semantics: BPF_ANY 0, BPF_NOEXIST 1 (-EEXIST when present), BPF_EXIST 2 (-ENOENT when absent) */
 long vt_update_f(const void *id, unsigned ks, unsigned vs, unsigned cap, unsigned type, const void *key, const void *val, unsigned long long flags) {
@@ -312,14 +314,22 @@ static void explore(struct world *init) {
  * preemption count stays within the bound. Environment events (policy toggle, abort, port reuse) are the
  * hook-granularity search's business and are off here. */
 #define FSTK (256 * 1024)
-#define FMAXP 160
-static ucontext_t fine_sched;
-static struct { ucontext_t ctx; char *stack; int active, done; } fco[MAXT];
+#define FMAXP 320
+/* minimal x86-64 context switch (callee-saved registers + stack pointer): glibc's swapcontext makes two
+   system calls per switch, and there are 10^8 switches in a run */
+void fswap(void **from, void **to);
+__asm__(".text\n.globl fswap\n.type fswap,@function\nfswap:\n"
+        " pushq %rbp\n pushq %rbx\n pushq %r12\n pushq %r13\n pushq %r14\n pushq %r15\n"
+        " movq %rsp, (%rdi)\n movq (%rsi), %rsp\n"
+        " popq %r15\n popq %r14\n popq %r13\n popq %r12\n popq %rbx\n popq %rbp\n ret\n");
+static void *fine_sched;
+static struct { void *sp; char *stack; int active, done; } fco[MAXT];
 static struct world *fw;          /* world of the running execution */
 static int fcur = -1;             /* running thread */
 static long n_fine_exec, n_fine_steps, n_fine_configs, n_fine_maxpre;
+static long n_full_map;
 static int fine_bound;
-static void fine_yield(void) { int me = fcur; swapcontext(&fco[me].ctx, &fine_sched); vt_current = fw->th[me].id; }
+static void fine_yield(void) { int me = fcur; fswap(&fco[me].sp, &fine_sched); vt_current = fw->th[me].id; }
 static void fine_hook(void) {
     struct thread *th = &fw->th[fcur];
     int k = th->pc / 2; struct conn *c = &th->c[k];
@@ -337,6 +347,7 @@ static void fine_hook(void) {
     }
     fco[fcur].done = 1;
 }
+static void fine_entry(void) { fine_hook(); int me = fcur; fswap(&fco[me].sp, &fine_sched); fprintf(stderr, "MACHINERY: finished coroutine resumed\n"); exit(2); }
 struct fpoint { int nen; int cur_enabled; int choice; };
 /* run one execution: replay `prefix`, then choice 0; returns the number of decision points */
 static int fine_run(const struct world *init, const int *prefix, int np, struct fpoint *pts) {
@@ -358,13 +369,15 @@ static int fine_run(const struct world *init, const int *prefix, int np, struct 
         fcur = t; vt_current = th->id;
         if (!fco[t].active) {
             if (th->pc % 2 == 1) th->cur_sport = w.next_sport++;
-            getcontext(&fco[t].ctx);
             if (!fco[t].stack) fco[t].stack = malloc(FSTK);
-            fco[t].ctx.uc_stack.ss_sp = fco[t].stack; fco[t].ctx.uc_stack.ss_size = FSTK; fco[t].ctx.uc_link = &fine_sched;
+            uintptr_t top = ((uintptr_t)fco[t].stack + FSTK) & ~(uintptr_t)15;
+            void **sp = (void **)(top - 64);
+            for (int i = 0; i < 6; i++) sp[i] = NULL;       /* r15 r14 r13 r12 rbx rbp */
+            sp[6] = (void *)fine_entry; sp[7] = NULL;      /* return address of the first switch; fake caller */
+            fco[t].sp = sp;
             fco[t].active = 1; fco[t].done = 0;
-            makecontext(&fco[t].ctx, fine_hook, 0);
         }
-        swapcontext(&fine_sched, &fco[t].ctx);
+        fswap(&fine_sched, &fco[t].sp);
         n_fine_steps++;
         if (fco[t].done) {
             fco[t].active = 0; fco[t].done = 0;
@@ -470,6 +483,27 @@ int main(int argc, char **argv) {
             }
         }
     }
+    /* the audit map is full of records nobody picked up (the agent was down, callers gave up): a protected
+       connect must still get its record (the declared LRU map recycles the least recently used element) */
+    for (int pi = 0; pi < 3; pi++) for (int a = 1; a < 5; a++) for (int d = 0; d < 6; d += 2) {
+        struct world w; memset(&w, 0, sizeof w);
+        memset(vt_maps, 0, sizeof vt_maps);
+        vt_update(&skip_process_map, 4, 4, 10, 1, skip_key, skip_val);
+        set_policy(policies[pi]);
+        (void)vt_lookup(&local_map, 8, 24, 200, 9, "\0\0\0\0\0\0\0\0");
+        for (int i = 0; i < NENT; i++) {
+            unsigned char k[8]; audit_key_of((uint16_t)(30001 + i), k);
+            sock_addr_audit_entry e = {0}; e.logon_id = 4242; e.process_id = 4242; e.destination_ipv4 = EP_IP[0]; e.destination_port = htons(80);
+            bpf_map_update_elem(&audit_map, k, &e, 0);
+        }
+        save_world(&w);
+        w.nth = 1; w.policy_bits = policies[pi]; w.next_sport = 40001;
+        w.th[0].id = ids[a]; w.th[0].is_agent = 0; w.th[0].nconn = 1; w.th[0].c[0] = dests[d];
+        if (w.tlen < 90) { memcpy(w.trace, "full:", 5); w.tlen = 5; }
+        n_configs++; n_full_map++;
+        step_thread(&w, 0, 0); step_thread(&w, 0, 0);
+    }
+    printf("STAT full_audit_map_connects %ld\n", n_full_map);
     printf("STAT connects_not_judged_policy_changed_between_hooks %ld\n", n_unspecified);
     printf("STAT configurations %ld\nSTAT states %ld\nSTAT transitions %ld\nSTAT connects_checked %ld\nSTAT diverts_expected %ld\nSTAT helper_calls %ld\nSTAT violations %ld\n", n_configs, n_states, n_trans, n_connects_checked, n_divert_expected, vt_helper_calls, n_viol);
     printf("STAT fine_configurations %ld\nSTAT fine_executions %ld\nSTAT fine_steps %ld\nSTAT fine_max_preemptions %ld\n", n_fine_configs, n_fine_exec, n_fine_steps, n_fine_maxpre);
